@@ -68,7 +68,7 @@ non-trivial = >= 2 hops with a non-empty body, or a hop that changes authority o
     }
 
     fn cases_per_worker(tier: Tier) -> u32 {
-        tier.pick(1000, 12_000)
+        tier.pick(1000, 40_000)
     }
 
     fn strategy(_tier: Tier) -> BoxedStrategy<Case> {
